@@ -844,7 +844,8 @@ func (e *Exec) allocBound(n *Term, what string) {
 	for _, l := range seen {
 		if !dedup[l.String()] {
 			dedup[l.String()] = true
-			total = BVAdd(total, l)
+			// values seen on other paths carry no invariant here: count only non-negative lengths
+			total = BVAdd(total, Ite(SGe(l, bv64zero), Ite(SLe(l, maxLen), l, bv64zero), bv64zero))
 		}
 	}
 	bound := BVAdd(BVMul(BVLitI(64, 64), total), BVLitI(4096, 64))
